@@ -840,6 +840,124 @@ type pacc = { pa_names : str list; pa_types : token list;
 
 val literal_node : pst -> node pres option
 
+type prs = { pr_fuel : nat; pr_parse_eval : node p;
+             pr_parse_logical : node p; pr_parse_comparison : node p;
+             pr_parse_strexpr : node p; pr_parse_arith : node p;
+             pr_parse_term : node p; pr_parse_factor : node p;
+             pr_parse_atom : node p; pr_parse_moddiv : node p;
+             pr_parse_cast : node p;
+             pr_parse_args : (node list -> node list p);
+             pr_parse_arglist : node list p; pr_parse_fncall : node p;
+             pr_parse_indices : (node list -> node list p);
+             pr_parse_resolver_tail : (resolver -> resolver p);
+             pr_parse_resolver : resolver p;
+             pr_parse_ids : (token list -> token list p);
+             pr_parse_bounds : (node list -> node list p);
+             pr_parse_declare : node p; pr_parse_const : node p;
+             pr_parse_enum_vals : (str list -> str list p);
+             pr_parse_comp_body : (node list -> node list p);
+             pr_parse_type : node p;
+             pr_parse_if_tail : ((node option * node list) list -> (node
+                                option * node list) list p);
+             pr_parse_if : node p;
+             pr_parse_case_clauses : (casecomp list -> casecomp list p);
+             pr_parse_case : node p; pr_parse_while : node p;
+             pr_parse_repeat : node p; pr_parse_for : node p;
+             pr_parse_params : (pacc -> pacc p);
+             pr_parse_paramlist : ((str * token) * bool) list p;
+             pr_parse_procedure : node p; pr_parse_function : node p;
+             pr_parse_call : node p;
+             pr_parse_output_tail : (node list -> node list p);
+             pr_parse_statement : node p;
+             pr_parse_block_loop : (btype -> node list -> node list p);
+             pr_parse_block : (btype -> node list p) }
+
+val parse_eval_body : prs -> node p
+
+val parse_logical_body : prs -> node p
+
+val parse_comparison_body : prs -> node p
+
+val parse_strexpr_body : prs -> node p
+
+val parse_arith_body : prs -> node p
+
+val parse_term_body : prs -> node p
+
+val parse_factor_body : prs -> node p
+
+val parse_atom_body : prs -> node p
+
+val parse_moddiv_body : prs -> node p
+
+val parse_cast_body : bool -> prs -> node p
+
+val parse_args_body : prs -> node list -> node list p
+
+val parse_arglist_body : prs -> node list p
+
+val parse_fncall_body : prs -> node p
+
+val parse_indices_body : prs -> node list -> node list p
+
+val parse_resolver_tail_body : prs -> resolver -> resolver p
+
+val parse_resolver_body : prs -> resolver p
+
+val parse_ids_body : prs -> token list -> token list p
+
+val parse_bounds_body : prs -> node list -> node list p
+
+val parse_declare_body : prs -> node p
+
+val parse_const_body : prs -> node p
+
+val parse_enum_vals_body : prs -> str list -> str list p
+
+val parse_comp_body_body : prs -> node list -> node list p
+
+val parse_type_body : prs -> node p
+
+val parse_if_tail_body :
+  bool -> prs -> (node option * node list) list -> (node option * node list)
+  list p
+
+val parse_if_body : prs -> node p
+
+val parse_case_clauses_body : prs -> casecomp list -> casecomp list p
+
+val parse_case_body : prs -> node p
+
+val parse_while_body : prs -> node p
+
+val parse_repeat_body : prs -> node p
+
+val parse_for_body : prs -> node p
+
+val parse_params_body : prs -> pacc -> pacc p
+
+val parse_paramlist_body : prs -> ((str * token) * bool) list p
+
+val parse_procedure_body : prs -> node p
+
+val parse_function_body : prs -> node p
+
+val parse_call_body : prs -> node p
+
+val parse_output_tail_body : prs -> node list -> node list p
+
+val parse_statement_body : prs -> node p
+
+val parse_block_loop_body : prs -> btype -> node list -> node list p
+
+val parse_block_body : prs -> btype -> node list p
+
+val prs_zero : prs
+
+val prs_step : bool -> prs -> prs
+
+val prs_at : bool -> nat -> prs
+
 val parse_block : bool -> nat -> btype -> node list p
 
 val parse_fuel : token list -> nat
@@ -1388,6 +1506,47 @@ val hfuel : nat
 val store_value : token -> n -> n -> result -> result m
 
 val expect_holder_var : token -> n -> holder -> n m
+
+type evs = { ev_fuel : nat; ev_eval : (node -> n -> result m);
+             ev_resolve : (resolver -> n -> holder m);
+             ev_case_equals : (result -> node -> n -> bool m);
+             ev_case_range : (result -> node -> node -> n -> bool m);
+             ev_run_block : (block -> n -> unit m);
+             ev_new_var : (str -> dtype -> bool -> n -> n m);
+             ev_new_array : (str -> dtype -> dim list -> n -> n m);
+             ev_bind_args : (token -> ((str * dtype) * bool) list -> node
+                            list -> result list -> n -> n -> unit m);
+             ev_call_procedure : (token -> str -> node list -> n -> result m);
+             ev_call_function : (token -> node list -> n -> result m) }
+
+val eval_body : bool -> limits -> evs -> node -> n -> result m
+
+val resolve_body : evs -> resolver -> n -> holder m
+
+val case_equals_body : evs -> result -> node -> n -> bool m
+
+val case_range_body : evs -> result -> node -> node -> n -> bool m
+
+val run_block_body : bool -> limits -> evs -> block -> n -> unit m
+
+val new_var_body : evs -> str -> dtype -> bool -> n -> n m
+
+val new_array_body : limits -> evs -> str -> dtype -> dim list -> n -> n m
+
+val bind_args_body :
+  evs -> token -> ((str * dtype) * bool) list -> node list -> result list ->
+  n -> n -> unit m
+
+val call_procedure_body :
+  limits -> evs -> token -> str -> node list -> n -> result m
+
+val call_function_body : limits -> evs -> token -> node list -> n -> result m
+
+val evs_zero : evs
+
+val evs_step : bool -> bool -> limits -> evs -> evs
+
+val evs_at : bool -> bool -> limits -> nat -> evs
 
 val run_block : bool -> bool -> limits -> nat -> block -> n -> unit m
 
